@@ -1219,6 +1219,10 @@ def opaque_safe(fn):
         for t, names in _OPAQUE_SAFE_METHODS.items():
             if isinstance(slf, t) and name in names:
                 return True
+        if isinstance(slf, (set, frozenset)) and name in ("__sub__", "__rsub__", "__or__", "__and__", "__xor__", "difference", "union", "intersection", "__contains__", "add", "discard", "remove", "copy"):
+            # sets of objects with identity hashing and identity equality: the operation looks at addresses only
+            others = [a for a in getattr(fn, "__self__", ())]
+            return all(type(e).__eq__ is object.__eq__ and type(e).__hash__ is object.__hash__ for e in slf)
         if isinstance(slf, list) and name in ("remove", "index", "count", "__contains__"):
             # identity semantics when no element type overrides __eq__
             return all(type(e).__eq__ is object.__eq__ for e in slf)
